@@ -92,6 +92,11 @@ def run(F, R):
     wrap_rule(F, R, 'Q11')
     # Q10: delivered events are what the device wrote: the notification-type decoding table agrees with the enum's codes
     decode_tables_rule(F, R, 'Q10', ['device::sound', 'device::input', 'device::socket'])
+    # Q15: a delivered socket packet carries exactly its payload: the body handed to the handler ends at header size + the header's
+    # length field, whatever used length the device reported (C17.V10)
+    if 'device::socket::vsock::VsockEvent' in F.adts:
+        from .C17 import v10_body_bounded
+        guard(R, 'Q15', 'body-range', lambda: v10_body_bounded(F, RuleProxy(R, {"V10": "Q15"})))
     # Q14: a delivered socket event is the one the device wrote: operation codes decode to the protocol's event kinds (C18.X1)
     if 'device::socket::vsock::VsockEvent' in F.adts:
         from .C18 import x10_event_decoding
